@@ -349,6 +349,7 @@ type step struct {
 	after    int
 	failKeys [][]byte
 	restart  bool // restart (new Syncer on the same maps) BEFORE this apply
+	setNext  int64 // >0: set the Syncer's id counter to this value BEFORE this apply
 }
 
 type world struct {
@@ -471,6 +472,10 @@ func (w *world) run(steps []step) runInfo {
 			w.newSyncer()
 			ri.ops = append(ri.ops, "ORestart")
 			ri.restarts++
+		}
+		if st.setNext > 0 {
+			w.s.VerifSetNextSvcID(uint32(st.setNext))
+			ri.ops = append(ri.ops, fmt.Sprintf("OSetNext %d", st.setNext))
 		}
 		w.in.reset(st.failMode)
 		w.in.m, w.in.r, w.in.after = st.m, st.r, st.after
